@@ -404,6 +404,18 @@ impl TombRun {
                 self.runner.wait_flush()?;
                 self.out.push(json!({"a": "del", "ks": ks}));
             }
+            // insert and remove of each key inside ONE flushed batch (the entry and its tombstone travel together)
+            "insdel" => {
+                let ks: Vec<u64> = op["ks"].as_array().ok_or("insdel without ks")?.iter().filter_map(|x| x.as_u64()).collect();
+                self.runner.apply(&json!({"a": "hold"}))?;
+                for k in ks.iter() {
+                    self.runner.apply(&json!({"a": "ins", "k": k}))?;
+                    self.runner.apply(&json!({"a": "rem", "k": k}))?;
+                }
+                self.runner.apply(&json!({"a": "unhold"}))?;
+                self.runner.wait_flush()?;
+                self.out.push(json!({"a": "insdel", "ks": ks}));
+            }
             "reins" => {
                 let k = op["k"].as_u64().ok_or("reins without k")?;
                 self.runner.apply(&json!({"a": "ins", "k": k}))?;
